@@ -152,7 +152,7 @@ prop('C07', 'model_checking',
      'value patterns, per-SP / default lookup), MissingValue and the best-effort path of Server.setup_assertion, and the contract '
      '(released values are within identity, applicable restrictions, entitlements and the SP declaration; nothing is withheld '
      'when only restrictions apply); TLC checks the repaired design on 4 032 scenarios and exhibits the leak of the pinned '
-     'design; all scenarios are replayed through Server.create_authn_response with template-written SP metadata, the released '
+     'design; all scenarios are replayed through Server.create_authn_response and Server.create_attribute_response (an IdP + attribute-authority entity) with template-written SP metadata, the released '
      'set read from the XML by an independent parser',
      'three attributes from the shipped attribute maps, two values (one non-ASCII), the refeds entity-category module; anchored patterns',
      'TLA+ scenario spec + TLC + exhaustive replay', 'section 5 C07')
